@@ -77,7 +77,7 @@ Print Assumptions C16_man_rows_exact.
 
 (* ---- added by bin/mkprops (batch 2) ---- *)
 From GoFlags Require Import Base.Str Base.Utf8 Golib.Strings Golib.Strconv Model.Types Model.Tag Model.Scan Model.Lookup Model.Convert Model.State Model.Closest Model.Help Model.Parse Model.Ini Model.Complete.
-From GoFlags Require Import Proofs.ContextSpec.
+From GoFlags Require Import Proofs.ContextSpec Proofs.RowSpec.
 
 (* the usage line names exactly the non-hidden subcommands, sorted (or the word command when there are more than three) *)
 Theorem C16_usage_line_lists_visible_commands :
@@ -119,4 +119,222 @@ Theorem C16_usage_line_hidden_not_listed :
          ~ In (c_name (cmd_info hc)) (usage_cmd_names c).
 Proof. exact @C16_usage_hidden_not_listed. Qed.
 Print Assumptions C16_usage_line_hidden_not_listed.
+
+(* CONTENT of an option row: indentation, -s, --namespaced.long, =VALUE-NAME and the choices [a|b|c], with the exact case distinctions *)
+Theorem C16_option_row_shows_short_long_value_choices :
+  forall (cfg : pconfig) (o : opt) (ns : list str) (a : align),
+         let ind := spaces 2 ++ (if al_indent a then spaces 4 else []) in
+         let short := s2l "-" ++ encode_rune (o_short o) in
+         let long := s2l "--" ++ long_with_ns (pc_nsdelim cfg) ns (o_long o) in
+         let value := if can_argument o then s2l "=" ++ o_valname o ++ choices_text o else [] in
+         (o_short o <> 0 ->
+          o_long o <> [] -> WrapSpec.help_line2 cfg o ns a = ind ++ short ++ s2l ", " ++ long ++ value) /\
+         (o_short o <> 0 -> o_long o = [] -> WrapSpec.help_line2 cfg o ns a = ind ++ short ++ value) /\
+         (o_short o = 0 ->
+          o_long o <> [] ->
+          WrapSpec.help_line2 cfg o ns a = ind ++ (if al_hasshort a then spaces 4 else []) ++ long ++ value) /\
+         (o_short o = 0 ->
+          o_long o = [] ->
+          WrapSpec.help_line2 cfg o ns a = ind ++ (if al_hasshort a then spaces 2 else []) ++ value) /\
+         (o_long o <> [] ->
+          long_with_ns (pc_nsdelim cfg) ns (o_long o) =
+          concat (map (fun n : list N => n ++ pc_nsdelim cfg) (filter nonempty ns)) ++ o_long o) /\
+         can_argument o = vtype_is_unmarshaler (o_ty o) || negb (vtype_is_bool (o_ty o)) /\
+         (o_choices o = [] -> choices_text o = []) /\
+         (o_choices o <> [] -> choices_text o = s2l "[" ++ join (o_choices o) (s2l "|") ++ s2l "]") /\
+         (forall (r : rt) (envns : list str) (g : group) (row : str),
+          help_option cfg r o ns envns g a = Ok row ->
+          exists rest : list N, row = WrapSpec.help_line2 cfg o ns a ++ rest ++ [10]).
+Proof. exact @C16_option_row_names. Qed.
+Print Assumptions C16_option_row_shows_short_long_value_choices.
+
+(* beside a non-empty description: ` (default: D)` with D the mask (nothing at all for the mask `-`) else the default literal, then ` [$NAMESPACED_ENV_KEY]`; nothing beside an empty description *)
+Theorem C16_option_row_shows_description_default_env :
+  forall (cfg : pconfig) (r : rt) (o : opt) (ns envns : list str) (g : group),
+         let deflit := f_deflit (rt_fl r (o_fid o)) in
+         let ekey :=
+           concat (map (fun n : list N => n ++ pc_envdelim cfg) (filter nonempty envns)) ++ o_envkey o in
+         (o_desc o = [] ->
+          forall a : align, help_option cfg r o ns envns g a = Ok (WrapSpec.help_line2 cfg o ns a ++ [10])) /\
+         (o_desc o <> [] ->
+          forall (a : align) (row : str),
+          help_option cfg r o ns envns g a = Ok row ->
+          let col := (description_start a + 2)%nat in
+          row =
+          WrapSpec.help_line2 cfg o ns a ++
+          spaces (col - rune_count (WrapSpec.help_line2 cfg o ns a)) ++
+          wrap_text (HelpSafe.help_desc cfg r o ns envns g) (cols cfg - Z.of_nat col) (spaces col) ++ [10]) /\
+         HelpSafe.help_desc cfg r o ns envns g = o_desc o ++ default_part r o ++ env_part cfg o envns /\
+         (o_mask o = s2l "-" -> default_part r o = []) /\
+         (o_mask o <> [] -> o_mask o <> s2l "-" -> default_part r o = s2l " (default: " ++ o_mask o ++ s2l ")") /\
+         (o_mask o = [] -> deflit <> [] -> default_part r o = s2l " (default: " ++ deflit ++ s2l ")") /\
+         (o_mask o = [] -> deflit = [] -> default_part r o = []) /\
+         (o_envkey o = [] -> env_part cfg o envns = []) /\
+         (o_envkey o <> [] -> env_part cfg o envns = s2l " [$" ++ ekey ++ s2l "]") /\
+         (o_envkey o <> [] -> env_key (pc_envdelim cfg) (oc_of o ns envns g) = ekey).
+Proof. exact @C16_option_row_description. Qed.
+Print Assumptions C16_option_row_shows_description_default_env.
+
+(* with a mask the row does not depend on the default at all *)
+Theorem C16_masked_default_never_in_a_row :
+  forall (cfg : pconfig) (r1 r2 : rt) (o : opt) (d ns envns : list str) (g : group) (a : align),
+         o_mask o <> [] ->
+         HelpSafe.help_desc cfg r1 o ns envns g = HelpSafe.help_desc cfg r2 o ns envns g /\
+         HelpSafe.help_desc cfg r1 (HelpSpec.opt_with_default o d) ns envns g =
+         HelpSafe.help_desc cfg r2 o ns envns g /\
+         help_option cfg r1 (HelpSpec.opt_with_default o d) ns envns g a = help_option cfg r2 o ns envns g a /\
+         HelpSafe.help_desc cfg r1 o ns envns g =
+         o_desc o ++
+         (if str_eqb (o_mask o) (s2l "-") then [] else s2l " (default: " ++ o_mask o ++ s2l ")") ++
+         env_part cfg o envns.
+Proof. exact @C16_masked_default_never_in_row. Qed.
+Print Assumptions C16_masked_default_never_in_a_row.
+
+(* the visible sub-commands of the innermost command, sorted, each with its description and ` (aliases: a, b)` beside it *)
+Theorem C16_command_rows_show_description_and_aliases :
+  forall (cfg : pconfig) (root : command) (r : rt) (out : str) (rows : list hrow),
+         write_help_rows cfg root r = Ok (out, rows) ->
+         let inner := HelpSpec.help_innermost root r in
+         let sc := sorted_visible_cmds inner in
+         let col := cmd_col sc in
+         Permutation.Permutation sc (filter (fun c : command => negb (c_hidden (cmd_info c))) (cmd_subs inner)) /\
+         Sorted.StronglySorted
+           (fun x y : command => str_ltb (c_name (cmd_info y)) (c_name (cmd_info x)) = false) sc /\
+         (exists pre : list N,
+            out =
+            pre ++
+            match sc with
+            | [] => []
+            | _ :: _ => [10] ++ s2l "Available commands:" ++ [10] ++ concat (map (cmd_row_text col) sc)
+            end) /\
+         (forall c : command, In c sc -> (rune_count (c_name (cmd_info c)) <= col)%nat) /\
+         (sc <> [] -> exists c : command, In c sc /\ rune_count (c_name (cmd_info c)) = col) /\
+         (forall c : command,
+          In c (cmd_subs inner) ->
+          c_hidden (cmd_info c) = false ->
+          exists (l1 l2 : list command) (pre : list N),
+            sc = l1 ++ c :: l2 /\
+            out =
+            pre ++
+            [10] ++
+            s2l "Available commands:" ++
+            [10] ++
+            concat (map (cmd_row_text col) l1) ++ cmd_row_text col c ++ concat (map (cmd_row_text col) l2)) /\
+         (forall c : command,
+          let name := c_name (cmd_info c) in
+          let sd := g_short (grp_info (cmd_group c)) in
+          let als := c_aliases (cmd_info c) in
+          (sd = [] -> cmd_row_text col c = s2l "  " ++ name ++ [10]) /\
+          (sd <> [] ->
+           als = [] ->
+           cmd_row_text col c = s2l "  " ++ name ++ spaces (col - rune_count name) ++ s2l "  " ++ sd ++ [10]) /\
+          (sd <> [] ->
+           als <> [] ->
+           cmd_row_text col c =
+           s2l "  " ++
+           name ++
+           spaces (col - rune_count name) ++
+           s2l "  " ++ sd ++ s2l " (aliases: " ++ join als (s2l ", ") ++ s2l ")" ++ [10]) /\
+          (In c sc -> rune_count (name ++ spaces (col - rune_count name)) = col)).
+Proof. exact @C16_command_row_content. Qed.
+Print Assumptions C16_command_rows_show_description_and_aliases.
+
+Theorem C16_argument_rows_show_name_and_description :
+  forall (cfg : pconfig) (root : command) (r : rt) (out : str) (rows : list hrow),
+         write_help_rows cfg root r = Ok (out, rows) ->
+         forall (p : list nat) (c : command),
+         In (p, c) (HelpSpec.help_chain root r) ->
+         let col := (description_start (HelpSafe.help_align cfg root r) + 2)%nat in
+         let dargs := filter (fun ar : arg => nonempty (a_desc ar)) (cmd_args c) in
+         (dargs <> [] ->
+          exists pre post : list N,
+            out = pre ++ HelpSafe.arg_head p c ++ concat (map (arg_row_text cfg col) dargs) ++ post) /\
+         HelpSafe.arg_head p c =
+         (if is_root_path p
+          then [10] ++ s2l "Arguments:" ++ [10]
+          else [10] ++ s2l "[" ++ c_name (cmd_info c) ++ s2l " command arguments]" ++ [10]) /\
+         (forall ar : arg,
+          In ar (cmd_args c) ->
+          a_desc ar <> [] ->
+          let name := s2l "  " ++ a_name ar ++ s2l ":" in
+          arg_row_text cfg col ar =
+          name ++
+          spaces (col - rune_count name) ++
+          wrap_text (a_desc ar) (cols cfg - 1 - Z.of_nat col) (spaces col) ++ [10] /\
+          (rune_count name < col)%nat /\
+          rune_count (name ++ spaces (col - rune_count name)) = col /\
+          (exists pre post : list N, out = pre ++ arg_row_text cfg col ar ++ post)).
+Proof. exact @C16_argument_row_content. Qed.
+Print Assumptions C16_argument_rows_show_name_and_description.
+
+(* the man page entry of an option, piece by piece (names, value name, default or mask or env-as-default, required mark, description); it shows no choices *)
+Theorem C16_man_option_entry_content :
+  forall (cfg : pconfig) (o : opt) (ns envns : list str) (g : group),
+         let short := s2l "\fB\-" ++ encode_rune (o_short o) ++ s2l "\fR" in
+         let long := s2l "\fB\-\-" ++ man_quote (long_with_ns (pc_nsdelim cfg) ns (o_long o)) ++ s2l "\fR" in
+         let ekey :=
+           concat (map (fun n : list N => n ++ pc_envdelim cfg) (filter nonempty envns)) ++ o_envkey o in
+         man_option cfg o ns envns g =
+         s2l ".TP" ++
+         [10] ++
+         s2l "\fB" ++
+         man_names cfg o ns ++
+         man_value o ++ man_default cfg o envns ++ man_required o ++ s2l "\fP" ++ [10] ++ man_description o /\
+         (o_short o <> 0 -> o_long o <> [] -> man_names cfg o ns = short ++ s2l ", " ++ long) /\
+         (o_short o <> 0 -> o_long o = [] -> man_names cfg o ns = short) /\
+         (o_short o = 0 -> o_long o <> [] -> man_names cfg o ns = long) /\
+         (o_short o = 0 -> o_long o = [] -> man_names cfg o ns = []) /\
+         (o_optional o = true ->
+          man_value o =
+          s2l " [\fI" ++
+          man_quote (o_valname o) ++
+          s2l "=" ++ man_quote (join (map quote (o_optval o)) (s2l ", ")) ++ s2l "\fR]") /\
+         (o_optional o = false ->
+          o_valname o <> [] -> man_value o = s2l " \fI" ++ man_quote (o_valname o) ++ s2l "\fR") /\
+         (o_optional o = false -> o_valname o = [] -> man_value o = []) /\
+         (o_mask o = s2l "-" -> man_default cfg o envns = []) /\
+         (o_mask o <> [] ->
+          o_mask o <> s2l "-" ->
+          man_default cfg o envns = s2l " <default: \fI" ++ man_quote (o_mask o) ++ s2l "\fR>") /\
+         (o_mask o = [] ->
+          o_default o <> [] ->
+          man_default cfg o envns =
+          s2l " <default: \fI" ++ man_quote (join (map quote (o_default o)) (s2l ", ")) ++ s2l "\fR>") /\
+         (o_mask o = [] ->
+          o_default o = [] ->
+          o_envkey o <> [] ->
+          man_default cfg o envns = s2l " <default: \fI$" ++ man_quote ekey ++ s2l "\fR>" /\
+          env_key (pc_envdelim cfg) (oc_of o ns envns g) = ekey) /\
+         (o_mask o = [] -> o_default o = [] -> o_envkey o = [] -> man_default cfg o envns = []) /\
+         (o_required o = true -> man_required o = s2l " (\fIrequired\fR)") /\
+         (o_required o = false -> man_required o = []) /\
+         (o_desc o = [] -> man_description o = []) /\
+         (o_desc o <> [] -> man_description o = format_for_man (o_desc o) ++ [10]).
+Proof. exact @C16_man_option_row_content. Qed.
+Print Assumptions C16_man_option_entry_content.
+
+Theorem C16_option_row_is_in_the_help_text :
+  forall (cfg : pconfig) (root : command) (r : rt) (out : str) (rows : list hrow),
+         write_help_rows cfg root r = Ok (out, rows) ->
+         forall (p : list nat) (c : command) (g : group) (ns envns : list str) (o : opt),
+         In (p, c) (HelpSpec.help_chain root r) ->
+         In (g, ns, envns) (cmd_group_ctxs c) ->
+         g_hidden (grp_info g) = false ->
+         (g_builtin_help (grp_info g) = true -> p = []) ->
+         In o (grp_opts g) ->
+         opt_show_in_help o = true ->
+         exists (row : str) (pre post : list N),
+           help_option cfg r o ns envns g (row_align cfg root r p) = Ok row /\ out = pre ++ row ++ post.
+Proof. exact @C16_option_row_in_help. Qed.
+Print Assumptions C16_option_row_is_in_the_help_text.
+
+Theorem C16_man_option_entry_is_in_the_page :
+  forall (cfg : pconfig) (c : command) (g : group) (ns envns : list str) (o : opt),
+         In (g, ns, envns) (cmd_group_ctxs c) ->
+         group_show_in_help g = true ->
+         In o (grp_opts g) ->
+         opt_show_in_help o = true ->
+         exists pre post : list N, man_options cfg c = pre ++ man_option cfg o ns envns g ++ post.
+Proof. exact @C16_man_option_row_in_page. Qed.
+Print Assumptions C16_man_option_entry_is_in_the_page.
 
